@@ -47,6 +47,8 @@ def _run(binary, args, timeout):
                 return json.loads(ln[len("WITNESS "):]), ln
             except Exception:
                 return {"raw": ln[len("WITNESS "):]}, ln
+    if "NO-WITNESS" not in p.stdout:
+        return None, "ERROR: search ended without a verdict (exit %s): %s" % (p.returncode, (p.stdout + p.stderr).strip()[-300:])
     return None, p.stdout.strip()[-300:]
 
 
@@ -79,17 +81,19 @@ def standin(prop, HERE, REPO, tier="quick", seed=0):
     binary, err = _build(HERE, REPO)
     if binary is None:
         return {"status": "build-failed", "detail": err, "runs": [], "witness": None}
-    runs, witness, other = [], None, None
+    runs, witness, other, errors = [], None, None, []
     for kind in kinds:
         q, th, bound = SEARCHES[kind]
         args = [str(a).replace("{seed}", str(seed + 1)) for a in (th if tier == "thorough" else q)]
         w, out = _run(binary, args, 600 if tier == "thorough" else 120)
         runs.append({"search": " ".join(args), "bound": bound, "result": ("WITNESS property=%s" % w.get("property")) if w else out})
+        if not w and str(out).startswith(("ERROR", "timeout")):
+            errors.append("%s: %s" % (" ".join(args), out))
         if w and (w.get("property") == prop or prop in w.get("also", [])) and witness is None:
             witness = w
         elif w and other is None:
             other = w
-    return {"status": "witness" if witness else "clean", "runs": runs, "witness": witness, "other_property_witness": other,
+    return {"status": "witness" if witness else ("error" if errors else "clean"), "errors": errors, "runs": runs, "witness": witness, "other_property_witness": other,
             "wall_s": round(time.time() - t0, 1)}
 
 
@@ -120,7 +124,7 @@ def replay(path, HERE, REPO):
             print("REPLAY: cannot build the replay crate: %s" % err)
             return 2
         if w.get("kind") == "history":
-            got, out = _run(binary, ["run-history", w.get("ack_deadline_s", 10), json.dumps(w["ops"])], 120)
+            got, out = _run(binary, ["run-history", w.get("ack_deadline_s", 10), json.dumps(w["ops"]), w.get("uptime_days", 0)], 120)
         elif w.get("kind") == "lifecycle":
             got, out = _run(binary, ["run-lifecycle", json.dumps(w["ops"])], 120)
         elif w.get("kind") == "order":
